@@ -86,6 +86,21 @@ func Pick[T any](c *Ctx, q, t T) T {
 // Mine reports whether top-level subtree i belongs to this shard.
 func (c *Ctx) Mine(i int) bool { return i%c.NShards == c.Shard }
 
+// Share runs f with a deadline that gives it an equal share of the remaining budget among
+// `remaining` items still to run (so that one expensive item cannot starve the ones after it).
+func (c *Ctx) Share(remaining int, f func()) {
+	if remaining < 1 {
+		remaining = 1
+	}
+	old := c.deadline
+	left := time.Until(old)
+	if left > 0 {
+		c.deadline = time.Now().Add(left / time.Duration(remaining))
+	}
+	f()
+	c.deadline = old
+}
+
 // Expired reports that the internal wall-clock budget is exhausted; the check must stop
 // cleanly, and the run is reported as exhaustive:false.  It is never an oracle.
 func (c *Ctx) Expired() bool {
